@@ -5451,6 +5451,7 @@ type dstate =
 | DPS of psef * n list * n
 | DWM of wavelet * bkind * n list * n
 | DBroad
+| DBig of bitvec * bool
 | DSer of dstate * ty * val0 * n list * n
 
 (** val st_val : dstate -> (ty * val0) option **)
@@ -5470,6 +5471,7 @@ let st_val = function
    | KRank9 -> Some (ty_WaveletMatrix_Rank9Sel, (v_wavelet m))
    | KDArray -> Some (ty_WaveletMatrix_DArray, (v_wavelet m))
    | KBitVec -> Some (ty_WaveletMatrix_BitVector, (v_wavelet m)))
+| DBig (m, _) -> Some (ty_BitVector, (v_bitvec m))
 | _ -> None
 
 (** val val_eqb : val0 -> val0 -> bool **)
@@ -5672,6 +5674,10 @@ let bound_ok st bytes =
                 (XO (XO (XI XH)))))))))))))))))))) (Npos (XO (XO (XO (XO (XO
             (XO (XO (XO (XO (XI (XO (XO (XI XH)))))))))))))))
       | _ -> true)
+   | DBig (m, _) ->
+     N.leb b
+       (N.add (round64 m.bv_len) (Npos (XO (XO (XO (XO (XO (XO (XO (XO
+         XH))))))))))
    | _ -> true)
 
 (** val ser_step :
@@ -7527,7 +7533,14 @@ let init c kind args data =
                | Panic -> ((DNone, RPanic), sp)))
          | XO p1 ->
            (match p1 with
-            | XI _ -> ((DNone, RPanic), SAny)
+            | XI p2 ->
+              (match p2 with
+               | XH ->
+                 (match from_bit c (nz (arg args O)) (arg args (S O)) with
+                  | Ok m ->
+                    (((DBig (m, (nz (arg args O)))), ROk), (SExact ROk))
+                  | Panic -> bad)
+               | _ -> ((DNone, RPanic), SAny))
             | XO p2 ->
               (match p2 with
                | XH ->
@@ -7682,4 +7695,46 @@ let step c st code args data =
              | DWM (m, k, xs, itpos) -> step_wm c m k xs itpos code args data
              | DBroad ->
                let (r, sp) = step_broad c code args in ((st0, r), sp)
+             | DBig (m, bit) ->
+               let a0 = arg args O in
+               (match code with
+                | N0 -> ((st0, RPanic), SAny)
+                | Npos p ->
+                  (match p with
+                   | XI p0 ->
+                     (match p0 with
+                      | XI p1 ->
+                        (match p1 with
+                         | XO p2 ->
+                           (match p2 with
+                            | XH ->
+                              ((st0, (rv_optbool (get_bit c m a0))), (SExact
+                                (if N.ltb a0 m.bv_len
+                                 then RBool bit
+                                 else RNone)))
+                            | _ -> ((st0, RPanic), SAny))
+                         | _ -> ((st0, RPanic), SAny))
+                      | _ -> ((st0, RPanic), SAny))
+                   | XO p0 ->
+                     (match p0 with
+                      | XI p1 ->
+                        (match p1 with
+                         | XI p2 ->
+                           (match p2 with
+                            | XH ->
+                              ((st0,
+                                (match bind (r9_new c m) (fun x ->
+                                         r9_rank1 c x a0) with
+                                 | Ok a ->
+                                   (match a with
+                                    | Some r -> RNum r
+                                    | None -> RNone)
+                                 | Panic -> RPanic)), (SExact
+                                (if N.leb a0 m.bv_len
+                                 then RNum (if bit then a0 else N0)
+                                 else RNone)))
+                            | _ -> ((st0, RPanic), SAny))
+                         | _ -> ((st0, RPanic), SAny))
+                      | _ -> ((st0, RPanic), SAny))
+                   | XH -> ((st0, RPanic), SAny)))
              | _ -> ((st0, RPanic), SAny))
